@@ -707,7 +707,8 @@ const CLASS_NAMES: &[&str] = &[
 
 const XML_OPS: &[&str] = &[
     "delete-element", "delete-closing-tag", "rename-element", "replace-text", "delete-attribute",
-    "change-attribute", "duplicate-attribute", "duplicate-element", "swap-elements",
+    "change-attribute", "duplicate-attribute", "duplicate-element", "swap-elements", "drop-last-token", "duplicate-first-token",
+    "truncate-text",
 ];
 
 const XML_NAMES: &[&str] = &[
@@ -806,7 +807,7 @@ fn apply_xml_edit(file: &mut Vec<u8>, op: u8, which: u32, arg: u32) -> bool {
     let k = opens[which as usize % opens.len()];
     let t = tags[k].clone();
     let close = matching_close(&tags, k);
-    match op % 9 {
+    match op % 12 {
         0 => {
             // delete the whole element
             let end = close.map(|c| tags[c].end).unwrap_or(t.end);
@@ -868,7 +869,7 @@ fn apply_xml_edit(file: &mut Vec<u8>, op: u8, which: u32, arg: u32) -> bool {
                 return false;
             }
             let (a, vs, ae) = attrs[arg as usize % attrs.len()];
-            match op % 9 {
+            match op % 12 {
                 4 => {
                     file.drain(inner_start + a..inner_start + ae);
                 }
@@ -887,6 +888,31 @@ fn apply_xml_edit(file: &mut Vec<u8>, op: u8, which: u32, arg: u32) -> bool {
             let end = close.map(|c| tags[c].end).unwrap_or(t.end);
             let copy = file[t.start..end].to_vec();
             file.splice(end..end, copy);
+        }
+        9 | 10 | 11 => {
+            // surgery on the whitespace-separated text that follows the opening tag
+            let text_end = file[t.end..].iter().position(|&b| b == b'<').map(|p| t.end + p).unwrap_or(file.len());
+            let text = file[t.end..text_end].to_vec();
+            if text.iter().all(|b| b.is_ascii_whitespace()) {
+                return false;
+            }
+            let new: Vec<u8> = match op % 12 {
+                9 => {
+                    let trimmed_end = text.iter().rposition(|b| !b.is_ascii_whitespace()).map(|p| p + 1).unwrap_or(0);
+                    let cut = text[..trimmed_end].iter().rposition(|b| b.is_ascii_whitespace()).unwrap_or(0);
+                    text[..cut].to_vec()
+                }
+                10 => {
+                    let start = text.iter().position(|b| !b.is_ascii_whitespace()).unwrap_or(0);
+                    let end = text[start..].iter().position(|b| b.is_ascii_whitespace()).map(|p| start + p).unwrap_or(text.len());
+                    let mut v = text[start..end].to_vec();
+                    v.push(b' ');
+                    v.extend_from_slice(&text);
+                    v
+                }
+                _ => text[..(arg as usize % text.len())].to_vec(),
+            };
+            file.splice(t.end..text_end, new);
         }
         _ => {
             // swap with another element (non-overlapping)
@@ -1065,7 +1091,7 @@ impl IoSim {
                 snap: r.chance(3, 4),
             },
             9 => Edit::RandomTail { keep: pos, len: r.range(0, 64) as u32, seed: r.next_u64() >> 16 },
-            10 => Edit::Xml { op: r.below(9) as u8, which: r.next_u64() as u32, arg: r.next_u64() as u32 },
+            10 => Edit::Xml { op: r.below(12) as u8, which: r.next_u64() as u32, arg: r.next_u64() as u32 },
             11 => Edit::PropType { which: r.next_u64() as u32, ty: r.below(0x24) as u8 },
             12 => Edit::PropRename { which: r.next_u64() as u32, name: r.below(PROP_NAMES.len() as u64) as u8 },
             13 => Edit::InstRename { which: r.next_u64() as u32, class: r.below(CLASS_NAMES.len() as u64) as u8 },
